@@ -426,6 +426,8 @@ struct ShT {
     cfg: RoundCfg,
     ctl: Mutex<Ctl>,
     gate: tokio::sync::Notify,
+    /// creators with an index >= this one suspend inside `handle_existing_fn` and get their future dropped there
+    ce_from: usize,
 }
 
 async fn write_cb_threads(sh: Arc<ShT>, c: usize, mut file: std::fs::File) -> Result<Made, CbErr> {
@@ -481,6 +483,11 @@ async fn creator_threads(sh: Arc<ShT>, c: usize) -> Outcome {
             if !matches!(read_class(&sh3.cfg.dest, sh3.cfg.seed), Class::Complete(_)) {
                 sh3.ctl.lock().unwrap().seen_bad += 1;
             }
+            if c >= sh3.ce_from {
+                // await point :126: ask the controller to drop this future; never resumes
+                sh3.ctl.lock().unwrap().abort_wanted.push(c);
+                std::future::pending::<()>().await;
+            }
             Ok::<Made, CbErr>(Made::Existing)
         },
     )
@@ -501,9 +508,9 @@ async fn creator_threads(sh: Arc<ShT>, c: usize) -> Outcome {
     o
 }
 
-fn run_round_threads(cfg: RoundCfg, n: usize, late: usize, cw: usize, stats: &mut Stats) -> (Vec<Outcome>, Ctl) {
+fn run_round_threads(cfg: RoundCfg, n: usize, late: usize, cw: usize, ce: usize, stats: &mut Stats) -> (Vec<Outcome>, Ctl) {
     let rt = tokio::runtime::Builder::new_multi_thread().worker_threads(4).enable_all().build().unwrap();
-    let sh = Arc::new(ShT { cfg, ctl: Mutex::new(Ctl::default()), gate: tokio::sync::Notify::new() });
+    let sh = Arc::new(ShT { cfg, ctl: Mutex::new(Ctl::default()), gate: tokio::sync::Notify::new(), ce_from: n + cw });
     let total = n + cw;
     let early = n - late;
     let outcomes = rt.block_on(async {
@@ -604,6 +611,39 @@ fn run_round_threads(cfg: RoundCfg, n: usize, late: usize, cw: usize, stats: &mu
         let t3 = Instant::now();
         while flock_threads_of(std::process::id()) > 0 && t3.elapsed() < Duration::from_secs(5) {
             tokio::time::sleep(tick).await;
+        }
+        // `ce` more creators, one after the other: each finds the destination (if somebody created it), suspends in
+        // its existing-file handler and gets its future dropped there; if nobody created it, it creates it
+        for c in total..total + ce {
+            let mut hs = vec![Some(tokio::spawn(creator_threads(sh.clone(), c)))];
+            let mut rs = vec![None];
+            let t4 = Instant::now();
+            loop {
+                // abort_wanted holds global creator indices; this loop owns exactly creator c
+                let wanted: Vec<usize> = std::mem::take(&mut sh.ctl.lock().unwrap().abort_wanted);
+                if wanted.contains(&c) {
+                    if let Some(h) = hs[0].take() {
+                        h.abort();
+                        rs[0] = Some(match h.await {
+                            Ok(o) => o,
+                            Err(_) => Outcome::Cancelled,
+                        });
+                    }
+                    break;
+                }
+                if hs[0].as_ref().map(|h| h.is_finished()).unwrap_or(true) || t4.elapsed() > Duration::from_secs(20) {
+                    break;
+                }
+                tokio::time::sleep(tick).await;
+            }
+            if let Some(h) = hs[0].take() {
+                rs[0] = Some(match tokio::time::timeout(Duration::from_secs(5), h).await {
+                    Ok(Ok(o)) => o,
+                    Ok(Err(_)) => Outcome::Cancelled,
+                    Err(_) => Outcome::Err("stuck".into()),
+                });
+            }
+            results.push(rs.pop().unwrap());
         }
         results.into_iter().map(|o| o.unwrap_or(Outcome::Err("lost".into()))).collect::<Vec<_>>()
     });
@@ -1087,6 +1127,7 @@ fn run_round(ws: &[&str], stats: &mut Stats) -> Vec<String> {
     let cw = kv_num(ws, "cw", 0);
     let sig = if mode == "procs" { kv_num(ws, "sig", 0).min(3) } else { 0 };
     let sigx = if mode == "procs" { kv_num(ws, "sigx", 0).min(late) } else { 0 };
+    let ce = if mode == "threads" { kv_num(ws, "ce", 0) } else { 0 };
     let fates: Vec<Fate> = list(kv(ws, "fates").unwrap_or("-")).into_iter().map(Fate::parse).collect();
     let sizes: Vec<usize> = list(kv(ws, "sizes").unwrap_or("-")).into_iter().filter_map(|s| s.parse().ok()).collect();
     let seed = kv_num(ws, "seed", 1) as u64;
@@ -1113,7 +1154,7 @@ fn run_round(ws: &[&str], stats: &mut Stats) -> Vec<String> {
         });
         run_round_procs(cfg, n, late, cw, sig, sigx, pre, lead, stats)
     } else {
-        let (o, c) = run_round_threads(cfg, n, late, cw, stats);
+        let (o, c) = run_round_threads(cfg, n, late, cw, ce, stats);
         (None, o, c)
     };
     let fin = final_line(&dest, seed);
@@ -1166,6 +1207,9 @@ fn run_round(ws: &[&str], stats: &mut Stats) -> Vec<String> {
     }
     if sigx > 0 {
         stats.bump("rounds_with_eintr_exhaustion");
+    }
+    if ce > 0 {
+        stats.bump("rounds_with_cancel_in_existing_handler");
     }
     if EMPTY_OK.swap(false, Ordering::SeqCst) {
         stats.bump("rounds_with_empty_payload");
@@ -1348,7 +1392,7 @@ fn run_trace(ws: &[&str], stats: &mut Stats) -> Vec<String> {
         // somebody else (a real creator in this process) is parked inside its write callback and holds the lock
         let other_fate = if scenario == "blocked_existing" { Fate::Ok } else { Fate::Fail(1) };
         let cfg = RoundCfg { seed, dest: dest.clone(), fates: vec![other_fate], sizes: vec![chunks], gate_idx: Some(0) };
-        let sh = Arc::new(ShT { cfg, ctl: Mutex::new(Ctl::default()), gate: tokio::sync::Notify::new() });
+        let sh = Arc::new(ShT { cfg, ctl: Mutex::new(Ctl::default()), gate: tokio::sync::Notify::new(), ce_from: usize::MAX });
         let rt = tokio::runtime::Builder::new_multi_thread().worker_threads(2).enable_all().build().unwrap();
         let h = rt.spawn(creator_threads(sh.clone(), 0));
         let t = Instant::now();
@@ -2424,6 +2468,9 @@ impl Prop for C16 {
         // waiters cancelled while blocked in flock (threads only)
         push("threads-cancel-waiters".into(), round_line("threads", 3, 1, 2, &[], &[3], "-", 2, "-", next_seed()));
         push("threads-fail-cancel-waiters".into(), round_line("threads", 3, 0, 1, &[Fate::Fail(2)], &[3, 2], "-", 2, "-", next_seed()));
+        // futures dropped inside the existing-file handler (the third await point of create_file_cleanly)
+        push("threads-cancel-in-existing".into(), format!("{} ce=2", round_line("threads", 3, 1, 0, &[], &[2, 3], "-", 2, "-", next_seed())));
+        push("threads-allfail-cancel-in-existing".into(), format!("{} ce=2", round_line("threads", 2, 0, 0, &[Fate::Fail(1), Fate::Cancel(0)], &[2], "-", 2, "-", next_seed())));
         // the rename of the first writer fails after a good write: a second writer must then succeed (two Ok callbacks)
         push("procs-rename-fails".into(), round_line("procs", 3, 0, 0, &[Fate::RFail], &[2, 3], "-", 2, "renamefail:0", next_seed()));
         push("procs-rename-fails-late".into(), round_line("procs", 4, 1, 0, &[Fate::RFail, Fate::Fail(1)], &[3, 2, 2], "-", 2, "renamefail:0", next_seed()));
@@ -2534,7 +2581,11 @@ impl Prop for C16 {
             let l = round_line_sig(mode, n, late, cw, sig, &fates, &sizes, seed);
             return vec![if sigx > 0 { format!("{l} sigx={sigx}") } else { l }];
         }
-        vec![round_line(mode, n, late, cw, &fates, &sizes, &pre, presize, &lead, seed)]
+        let l = round_line(mode, n, late, cw, &fates, &sizes, &pre, presize, &lead, seed);
+        if !procs && rng.chance(1, 6) {
+            return vec![format!("{l} ce={}", rng.range(1, 2))];
+        }
+        vec![l]
     }
     fn execute(&self, ops: &[String], stats: &mut Stats) -> Vec<String> {
         let Some(l) = ops.first() else { return vec!["bad-op".into()] };
